@@ -1,6 +1,7 @@
 import TinsModel.Wire.App.TheoremsFixed
 import TinsModel.Wire.App.TheoremsRtp
 import TinsModel.Wire.App.TheoremsRtpReparse
+import TinsModel.Wire.App.TheoremsRtpApi
 import TinsModel.Wire.App.TheoremsDhcp
 import TinsModel.Wire.App.TheoremsDhcpv6
 import TinsModel.Wire.App.TheoremsCodec
@@ -12,6 +13,7 @@ import TinsModel.Wire.App.TheoremsApi
     TheoremsFixed   — ARP, VXLAN, STP, BootP (fixed headers)
     TheoremsRtp     — RTP (CSRC list, extension header, padding trailer)
     TheoremsRtpReparse — C03 for RTP
+    TheoremsRtpApi  — RTP setters keep the invariant (C02 for API histories)
     TheoremsDhcp    — DHCP (TLV options, cached `size_`)
     TheoremsDhcpv6  — DHCPv6 (TLV options, cached `options_size_`)
     TheoremsReparse — C03: TLV round trips of DHCP / DHCPv6 option lists, write → parse end to end; DHCPv6 invariant
